@@ -296,17 +296,18 @@ def corrupt(ev, rng):
 def run(ctx):
     ctx.cov["rule"] = ("inventory: every exported func/method/field of a non-internal package whose type mentions []byte, "
                        "secretdata.Bytes or a proto message carrying bytes (go/types extraction, diffed against the table of "
-                       "OwnershipInventory.tla); per operation kind (target) and per buffer layout (cap = len+8 | cap = rest of "
-                       "the array) every maximal interleaving of {construct, use, read accessors, overwrite any group of "
+                       "OwnershipInventory.tla); per operation kind (target) every maximal interleaving of {construct, use, read accessors, overwrite any group of "
                        "former inputs / returned slices} up to N steps (N = 4 quick, 6 thorough), enumerated by TLC from "
-                       "Ownership.tla; every region's data, spare capacity and guard zones plus the object's observable value "
+                       "Ownership.tla, each run in one of five rotating buffer layouts (cap = len+8; small un-capped; 8 KiB of un-capped "
+                       "sentinel room so that an append of any size lands in caller memory; all inputs of a call adjacent in one frame, "
+                       "in call order and in reverse order); every region's data, spare capacity and guard zones plus the object's observable value "
                        "are logged after every step and judged by TLC")
     ctx.assumptions += [
         "an object's observable value is what the driver can see through the public API: Equal against a pristine deep copy, "
         "accessor bytes / serialized key data, behaviour of primitives built from it before and after (randomized primitives "
         "through a counterpart made from pristine material); the oracle is only that it does not change",
-        "one object per scenario; schedules bounded to 4 (quick) / 6 (thorough) steps; two buffer layouts (cap = len + 8, cap = "
-        "rest of the array), guard zones of 8 bytes, inputs of 0..5000 bytes",
+        "one object per scenario; schedules bounded to 4 (quick) / 6 (thorough) steps; five buffer layouts rotating over the "
+        "schedules of a target (tight, small open, 8 KiB open, adjacent frame forward / reverse); inputs of 0..5000 bytes",
         "stateful objects (noncebased.Writer/Reader, Polyval) are compared with a twin fed with exact-size copies in lock-step",
         "result/input aliasing is read from slice addresses (unsafe.SliceData); Go's collector does not move heap objects",
         "values of type *big.Int and buffers the library hands to caller-implemented io.Reader / io.Writer are outside the check",
@@ -348,7 +349,7 @@ def run(ctx):
     listing, table_ops = check_inventory(ctx, drv, spec_targets, spec_excluded)
     ctx.log("plan: %d maximal schedules (<= %d steps)" % (nplan, steps))
     trace = os.path.join(ctx.scratch, "c19.ndjson")
-    # per (target, layout): all schedules for cheap targets (thorough: a seeded sample of 80 of the up to 383), fewer for
+    # per target: all schedules for cheap targets (thorough: a seeded sample of 160 of the up to 383), fewer for
     # targets whose steps cost milliseconds (RSA, ML-DSA, streaming) or tens of milliseconds (SLH-DSA)
     limits = ["-max0", "80", "-max1", "40", "-max2", "8"] if ctx.thorough else ["-max1", "20", "-max2", "3"]
     nproc = 12
@@ -390,13 +391,13 @@ MANIFEST = dict(
           "out every maximal schedule per shape class of the inventory table (OwnershipInventory.tla: 771 operation kinds "
           "covering 394 of the 398 public operations that exchange []byte / secretdata.Bytes / byte-carrying protos, which a "
           "go/types extractor lists from the current tree; 4 are excluded with reasons; a new operation missing from the "
-          "table is exit 2). The driver executes every schedule on real objects in two buffer layouts; TLC (Trace_Ownership, "
+          "table is exit 2). The driver executes every schedule on real objects in five rotating buffer layouts; TLC (Trace_Ownership, "
           "stepping Ownership with Faults = {}) judges every region's data / spare capacity / guards, result aliasing (address "
           "ranges) and the object's observable value (Equal vs pristine copy, accessors, primitives built before and after) "
           "after every step; deterministic calls are also re-submitted with the SAME caller buffers and compared with a pristine "
-          "counterpart (stale caches keyed by a caller slice). quick: ~18.6k scenarios / ~168k events; thorough: ~105k / ~1.43M."),
-    note=("Bounded: one object per scenario, schedules of <= 4 (quick) / <= 6 (thorough) steps; thorough samples 80 of the up "
-          "to 383 six-step schedules per (target, layout) by seed. Factory targets cover every primitive kind, every prefix type "
+          "counterpart (stale caches keyed by a caller slice). quick: ~10.8k scenarios / ~95k events; thorough: ~81k / ~1.18M."),
+    note=("Bounded: one object per scenario, schedules of <= 4 (quick) / <= 6 (thorough) steps; thorough samples 160 of the up "
+          "to 383 six-step schedules per target by seed. Factory targets cover every primitive kind, every prefix type "
           "incl. LEGACY and the legacy adapters (custom key managers) with one or two parameter sets per key type; the key "
           "classes' constructors and accessors are run for EVERY member of every family (all HPKE KEM ids, ECIES curves x point "
           "formats, ECDSA curves/hashes/encodings, ML-DSA instances, SLH-DSA sets, RSA/JWT algorithms, hashes, key sizes, "
